@@ -44,6 +44,7 @@ struct SentPkt {
     size_t emitted_len = 0;           // bytes that actually went out (less than raw.size() for a cut emission)
     uint64_t delivered_seq = 0; ns_t delivered_t = 0;   // last byte consumed by a client read
     bool hostile = false;             // deliberately malformed / illegitimate
+    bool dup_ack = false;             // repetition of an acknowledgement already sent
     int reply_to = -1;                // RecvPkt idx
     int msg = -1;                     // broker message id for PUBLISH/PUBREL
 };
@@ -108,6 +109,7 @@ struct Knobs {
     double ack_props_p = 0.0;         // reason string / user props on acks
     double short_form_p = 0.3;
     double pubcomp_notfound_p = 0.0;
+    double dup_ack_p = 0.0;           // the broker repeats a final acknowledgement (not legitimate MQTT, harmless on TCP; oracles switch to the relaxed witness rule)
     // connection behaviour
     double session_loss_p = 0.0;      // Session Present 0 on reconnect although a session exists
     bool caps_change = false;         // draw new capabilities per connection
@@ -181,6 +183,7 @@ struct Broker : sim::NetSink {
 
 private:
     void handle(BConn& c, int ridx);
+    void maybe_duplicate(BConn& c, const mq::Packet& a, ns_t delay, int ridx);
     void handle_connect(BConn& c, int ridx);
     void finish_handshake(BConn& c, int ridx);
     void resume_outbound(BConn& c);
